@@ -1096,10 +1096,20 @@ static size_t ares_calc_query_timeout(const ares_query_t   *query,
   }
 
   /* For each trip through the entire server list, we want to double the
-   * retry from the last retry */
+   * retry from the last retry.  Saturate instead of overflowing: shifting by
+   * the width of the type or more is undefined behavior and a wrapped value
+   * would shorten the wait.  The ceiling is half the range of size_t so the
+   * value stays positive when timeadd() converts it to a signed integer. */
   rounds = (query->try_count / num_servers);
   if (rounds > 0) {
-    timeplus <<= rounds;
+    const size_t max_timeplus = SIZE_MAX >> 1;
+
+    if (rounds >= sizeof(timeplus) * CHAR_BIT ||
+        timeplus > (max_timeplus >> rounds)) {
+      timeplus = max_timeplus;
+    } else {
+      timeplus <<= rounds;
+    }
   }
 
   if (channel->maxtimeout && timeplus > channel->maxtimeout) {
